@@ -107,6 +107,12 @@ func c03RunEnf(c *Ctx, cs *c01Case, class string) {
 	c.Dist["enforce calls ok"] += nok
 	if nerr > 0 {
 		c.NonTrivial(cs.id)
+		// an error must not poison later calls: the sentinels must still answer (c03_after.go)
+		var qs []string
+		for _, rq := range cs.reqs {
+			qs = append(qs, c01ReqSexp(rq))
+		}
+		c03AfterError(c, cs.id, fmt.Sprintf("matcher=%q wm=%q policy=%v requests=%s", cs.mText(cs.m[0]), cs.wm, cs.p[0].rules, strings.Join(qs, " ")))
 	}
 }
 
@@ -408,6 +414,57 @@ func c03Enforce(c *Ctx) {
 					cs.reqs = append(cs.reqs[:6:6], cs.reqs[len(cs.reqs)-6:]...)
 				}
 				c03RunEnf(c, cs, "cyclic role graph")
+			}
+		}
+
+		// ---- k. built-in operators over stored patterns that do not compile (the operator
+		//         panics, Enforce's recover turns it into the error outcome) next to patterns
+		//         that do; the model takes the operator's answer from the oracle table, what it
+		//         predicts is the outcome class of every request and where the policy loop stops.
+		//         keyMatch4 / keyGet2 / keyGet3 go through the process-wide regexp cache: the
+		//         requests behind the failing one, and the sentinels, show a cache left locked.
+		opPats := []string{"/p/{id}/c/{id}", "/x/{id}/unbalanced(", "/p/:id", "/x/:id/unbalanced(", "/p/*", "/a/[", "/a/)", "(", "[a-", "/*+", "{", "{}",
+			"/{a}/(b)", "/(a)/{b}", "10.0.0.0/8", "10.0.0.0/33", "not-an-ip", "", "^(", "a{2,1}", "\xff", "/p/{id}", "^/d/[0-9]+$", "/d/*"}
+		opObjs := []string{"/p/1/c/1", "/p/1/c/2", "/x/1/unbalanced(", "/p/7", "/a/b", "10.0.0.1", "", "(", "/d/42"}
+		pobj, robj, ract := c01V_("p_obj"), c01V_("r_obj"), c01V_("r_act")
+		opMs := []struct {
+			name string
+			m    *c01E
+		}{
+			{"keyMatch4", c01Call("keyMatch4", robj, pobj)},
+			{"keyGet2", c01Eq(c01Call("keyGet2", robj, pobj, c01Str("id")), ract)},
+			{"keyGet3", c01Eq(c01Call("keyGet3", robj, pobj, c01Str("id")), ract)},
+			{"keyGet", c01Eq(c01Call("keyGet", robj, pobj), ract)},
+			{"keyMatch2", c01Call("keyMatch2", robj, pobj)},
+			{"keyMatch3", c01Call("keyMatch3", robj, pobj)},
+			{"keyMatch5", c01Call("keyMatch5", robj, pobj)},
+			{"regexMatch", c01Call("regexMatch", robj, pobj)},
+			{"globMatch", c01Call("globMatch", robj, pobj)},
+			{"ipMatch", c01Call("ipMatch", robj, pobj)},
+			{"keyMatch4-swapped", c01Call("keyMatch4", pobj, robj)},
+			{"mix", c01Bin("||", c01Call("keyMatch4", robj, pobj), c01Bin("||", c01Eq(c01Call("keyGet2", robj, pobj, c01Str("id")), ract), c01Eq(c01Call("keyGet3", robj, pobj, c01Str("id")), ract)))},
+		}
+		for _, om := range opMs {
+			for _, eff := range c01EffectTags {
+				if eff != "ao" && eff != "do" && (!c.Thorough() || r.Intn(2) == 0) {
+					continue
+				}
+				cs := c01Build(r, next("op."+om.name+"."+eff), acl, c01And(c01Eq(c01V_("r_sub"), c01V_("p_sub")), om.m), eff, 0, 0)
+				n := 3 + r.Intn(4)
+				var rules [][]string
+				for i := 0; i < n; i++ {
+					rule := []string{"alice", c01Pick(r, opPats), c01Pick(r, []string{"read", "7", "1"})}
+					if c01FindRule(rules, rule) < 0 {
+						rules = append(rules, rule)
+					}
+				}
+				cs.p[0].rules = rules
+				cs.reqs = nil
+				for _, o := range opObjs {
+					cs.reqs = append(cs.reqs, c01Req{nil, c01StrVals("alice", o, c01Pick(r, []string{"read", "7", "1"}))})
+				}
+				cs.reqs = append(cs.reqs, c01Req{nil, c01StrVals("bob", "/p/7", "7")}, c01Req{nil, []c01V{c01S("alice"), c01N(7), c01S("7")}}, c01Req{nil, c01StrVals("alice", "/p/7")})
+				c03RunEnf(c, cs, "built-in operator on a hostile pattern")
 			}
 		}
 
